@@ -32,7 +32,7 @@ ASSUMPTIONS = [
     "iteration order pinned identically on both sides",
 ]
 REPORT_COUNTERS = ["histories_ovld", "histories_ovld_linkback_child", "histories_mtm", "mutations", "probe_comparisons", "rereg_ops", "unreg_ops",
-                   "mutation_after_failing_probe", "mutation_before_first_use", "mtm_lookups_raised"]
+                   "mutation_after_failing_probe", "mutation_before_first_use", "mtm_lookups_raised", "histories_ovld_middle"]
 
 
 def plan(tier):
@@ -46,8 +46,10 @@ def gen_case(rng, params, idx):
     # ovld_lb: every change is made on a parent that is never called itself; calls and probes go to a linkback copy
     # ovld_chain: the copy under test is a *plain* copy of a linkback copy of the function that is modified
     # ovld_mixed: a plain copy under test whose parent also has a *linkback* copy (derived first)
-    target = ("mtm" if idx % 4 == 3 else "ovld_lb" if idx % 4 == 1 else "ovld_chain" if idx % 8 == 6
-              else "ovld_mixed" if idx % 8 == 2 else "ovld")
+    # ovld_middle: the function that is modified is itself a copy (of a root that is never touched), and the linkback copy
+    #             under test was derived from it while it had no method of its own yet
+    target = ("mtm" if idx % 4 == 3 else "ovld_middle" if idx % 16 == 9 else "ovld_lb" if idx % 4 == 1
+              else "ovld_chain" if idx % 8 == 6 else "ovld_mixed" if idx % 8 == 2 else "ovld")
     hier = gen.gen_hierarchy(rng, rng.randint(2, 5), attrs=False, p_multi=0.5)
     pool = [s["name"] for s in hier] + ["object", "int", "str"]
     npos = rng.choice([1, 1, 2])
@@ -124,11 +126,18 @@ def _check_ovld(spec, res, env):
         return fn
 
     H = Ovld()
+    if spec["target"] == "ovld_middle":
+        root = Ovld()
+        rfn, rf = make_method({"mid": 901, "pos": [{"n": "r1", "t": "bytes"}]}, env, vf, ["return ('m', 901)"], tag="c05", shared_ns=ns)
+        files.append(rf)
+        root.register(rfn)
+        H = root.copy(linkback=bool(spec["probes"] and len(spec["probes"]) % 2))
+        res.count("histories_ovld_middle")
     S = None
     if spec.get("sibling"):
         S = H.copy(linkback=True)       # derived *before* the copy under test: it is brought up to date first
     # what is called: the function itself, or a linkback copy of it (the parent is then never called)
-    C = H.copy(linkback=True) if spec["target"] in ("ovld_lb", "ovld_chain") else H
+    C = H.copy(linkback=True) if spec["target"] in ("ovld_lb", "ovld_chain", "ovld_middle") else H
     if spec["target"] == "ovld_chain":
         C = C.copy()
         res.count("histories_ovld_chain")
@@ -219,6 +228,10 @@ def _check_ovld(spec, res, env):
         # fresh build of the resulting set
         fvf, fns = PVF(), {}
         F = Ovld()
+        if spec["target"] == "ovld_middle":      # the root's method is part of the resulting set
+            rfn2, rf2 = make_method({"mid": 901, "pos": [{"n": "r1", "t": "bytes"}]}, env, fvf, ["return ('m', 901)"], tag="c05", shared_ns=fns)
+            files.append(rf2)
+            F.register(rfn2)
         for m in live:
             F.register(mk(m, fvf, fns), priority=m.get("prio", 0))
         try:
